@@ -434,6 +434,7 @@ func (g *FnGen) addObl(s *State, kind, name, src, where, cond string) {
 	o := &Obligation{Name: g.c.fnKey(g.fn) + "#" + name, Fn: g.c.fnKey(g.fn), Kind: kind, Src: src, Where: where}
 	if g.fc != nil {
 		o.Uses = g.fc.Uses
+		o.Native = g.fc.Theory == "strings"
 	}
 	var b strings.Builder
 	b.WriteString(strings.Join(g.decls, "\n"))
